@@ -14,6 +14,7 @@ import (
 
 	"github.com/godaddy/asherah/go/appencryption"
 	"github.com/godaddy/asherah/go/appencryption/pkg/crypto/aead"
+	"github.com/godaddy/asherah/go/appencryption/pkg/persistence"
 	"github.com/godaddy/asherah/go/securememory"
 	"github.com/godaddy/asherah/go/securememory/memguard"
 	"github.com/godaddy/asherah/go/securememory/protectedmemory"
@@ -128,6 +129,9 @@ type World struct {
 	Service, Product, Suffix string
 
 	Store  *SimStore
+	// Mem, when set, puts the repository's real MemoryMetastore (which hands out and keeps the caller's
+	// pointers) behind the simulated RPC/fault layer; SimStore keeps the authoritative shadow copy.
+	Mem    *persistence.MemoryMetastore
 	KMS    *SimKMS
 	Faults *FaultPlan
 	Ledger *Ledger
@@ -559,4 +563,39 @@ type EKRDoc struct {
 	Created int64
 	JSON    []byte
 	EKR     appencryption.EnvelopeKeyRecord
+}
+
+// UseMemoryMetastore switches the world to the real in-memory metastore variant.
+func (w *World) UseMemoryMetastore() { w.Mem = persistence.NewMemoryMetastore() }
+
+// AliasedRowChanges compares every record held by the real in-memory metastore with the
+// authoritative shadow copy taken at insert time (plus operator revocations): a difference means
+// a stored record was modified through a pointer the SDK was handed.
+func (w *World) AliasedRowChanges() []string {
+	var out []string
+	if w.Mem == nil {
+		return nil
+	}
+	for id, m := range w.Store.Rows {
+		for c, doc := range m {
+			e := w.Mem.Envelopes[id][c]
+			if e == nil {
+				out = append(out, fmt.Sprintf("%s@%d removed", id, c))
+				continue
+			}
+			if string(fromEKR(e)) != string(doc) {
+				out = append(out, fmt.Sprintf("%s@%d modified: now %s, stored as %s", id, c, fromEKR(e), doc))
+			}
+		}
+	}
+	sortStringsW(out)
+	return out
+}
+
+func sortStringsW(a []string) {
+	for i := 1; i < len(a); i++ {
+		for j := i; j > 0 && a[j] < a[j-1]; j-- {
+			a[j], a[j-1] = a[j-1], a[j]
+		}
+	}
 }
